@@ -67,7 +67,7 @@ def main():
         for idx in args["indices"]:
             case = prop.gen_case((args["seed"], pid, idx), args["tier_cfg"])
             res = prop.run_case(case)
-            out[idx] = res["digest"]
+            out[idx] = res.get(args.get("digest_key", "digest")) or res["digest"]
         emit({"type": "sequence", "digests": out})
         emit({"type": "done"})
         return 0
@@ -88,6 +88,7 @@ def main():
     n_cases = n_exec = n_disc = 0
     keys = set()
     case_digests = {}
+    case_digests_hs = {}
     viol_by_sig = {}
     samples = []
     t0 = time.time()
@@ -128,6 +129,8 @@ def main():
             n_disc += 1
         keys.update(res["keys"])
         case_digests[idx] = res["digest"]
+        if "digest_hs" in res:
+            case_digests_hs[idx] = res["digest_hs"]
         for v in res["violations"]:
             v["case_index"] = idx
             lst = viol_by_sig.setdefault((v["sig_id"], v.get("kf")), [])
@@ -157,7 +160,7 @@ def main():
     for v in out_viol:
         emit({"type": "violation", "v": v})
     emit({"type": "stats", "cases": n_cases, "executions": n_exec, "discarded": n_disc,
-          "keys": sorted(keys), "case_digests": case_digests, "samples": samples,
+          "keys": sorted(keys), "case_digests": case_digests, "case_digests_hs": case_digests_hs, "samples": samples,
           "probes": dict(prop.probes), "world": prop.world_stats(),
           "hashseed": os.environ.get("PYTHONHASHSEED"), "wall": time.time() - t0})
     emit({"type": "done"})
